@@ -59,31 +59,31 @@ type stubField struct {
 	freqs   index.TokenFrequencies
 }
 
-func (s *stubField) Name() string                                    { return s.name }
-func (s *stubField) Value() []byte                                   { return s.value }
-func (s *stubField) ArrayPositions() []uint64                        { return s.ap }
-func (s *stubField) EncodedFieldType() byte                          { return s.typ }
-func (s *stubField) Analyze()                                        {}
-func (s *stubField) Options() index.FieldIndexingOptions             { return s.options }
-func (s *stubField) AnalyzedLength() int                             { return s.length }
+func (s *stubField) Name() string                                     { return s.name }
+func (s *stubField) Value() []byte                                    { return s.value }
+func (s *stubField) ArrayPositions() []uint64                         { return s.ap }
+func (s *stubField) EncodedFieldType() byte                           { return s.typ }
+func (s *stubField) Analyze()                                         {}
+func (s *stubField) Options() index.FieldIndexingOptions              { return s.options }
+func (s *stubField) AnalyzedLength() int                              { return s.length }
 func (s *stubField) AnalyzedTokenFrequencies() index.TokenFrequencies { return s.freqs }
-func (s *stubField) NumPlainTextBytes() uint64                       { return 0 }
-func (s *stubField) Compose(string, int, index.TokenFrequencies)     {}
+func (s *stubField) NumPlainTextBytes() uint64                        { return 0 }
+func (s *stubField) Compose(string, int, index.TokenFrequencies)      {}
 
 type stubSynField struct {
 	name string
 	defs []spec.SynDef
 }
 
-func (s *stubSynField) Name() string                                    { return s.name }
-func (s *stubSynField) Value() []byte                                   { return nil }
-func (s *stubSynField) ArrayPositions() []uint64                        { return nil }
-func (s *stubSynField) EncodedFieldType() byte                          { return 0 }
-func (s *stubSynField) Analyze()                                        {}
-func (s *stubSynField) Options() index.FieldIndexingOptions             { return 0 }
-func (s *stubSynField) AnalyzedLength() int                             { return 0 }
+func (s *stubSynField) Name() string                                     { return s.name }
+func (s *stubSynField) Value() []byte                                    { return nil }
+func (s *stubSynField) ArrayPositions() []uint64                         { return nil }
+func (s *stubSynField) EncodedFieldType() byte                           { return 0 }
+func (s *stubSynField) Analyze()                                         {}
+func (s *stubSynField) Options() index.FieldIndexingOptions              { return 0 }
+func (s *stubSynField) AnalyzedLength() int                              { return 0 }
 func (s *stubSynField) AnalyzedTokenFrequencies() index.TokenFrequencies { return nil }
-func (s *stubSynField) NumPlainTextBytes() uint64                       { return 0 }
+func (s *stubSynField) NumPlainTextBytes() uint64                        { return 0 }
 func (s *stubSynField) IterateSynonyms(visitor func(term string, synonyms []string)) {
 	for _, d := range s.defs {
 		syns := make([]string, len(d.Syns))
@@ -101,19 +101,19 @@ type stubVecField struct {
 	vec  spec.VecSpec
 }
 
-func (s *stubVecField) Name() string                                    { return s.name }
-func (s *stubVecField) Value() []byte                                   { return nil }
-func (s *stubVecField) ArrayPositions() []uint64                        { return nil }
-func (s *stubVecField) EncodedFieldType() byte                          { return 'v' }
-func (s *stubVecField) Analyze()                                        {}
-func (s *stubVecField) Options() index.FieldIndexingOptions             { return index.IndexField }
-func (s *stubVecField) AnalyzedLength() int                             { return 0 }
+func (s *stubVecField) Name() string                                     { return s.name }
+func (s *stubVecField) Value() []byte                                    { return nil }
+func (s *stubVecField) ArrayPositions() []uint64                         { return nil }
+func (s *stubVecField) EncodedFieldType() byte                           { return 'v' }
+func (s *stubVecField) Analyze()                                         {}
+func (s *stubVecField) Options() index.FieldIndexingOptions              { return index.IndexField }
+func (s *stubVecField) AnalyzedLength() int                              { return 0 }
 func (s *stubVecField) AnalyzedTokenFrequencies() index.TokenFrequencies { return nil }
-func (s *stubVecField) NumPlainTextBytes() uint64                       { return 0 }
-func (s *stubVecField) Vector() []float32                               { return s.vec.Data }
-func (s *stubVecField) Dims() int                                       { return s.vec.Dim }
-func (s *stubVecField) Similarity() string                              { return s.vec.Metric }
-func (s *stubVecField) IndexOptimizedFor() string                       { return s.vec.Opt }
+func (s *stubVecField) NumPlainTextBytes() uint64                        { return 0 }
+func (s *stubVecField) Vector() []float32                                { return s.vec.Data }
+func (s *stubVecField) Dims() int                                        { return s.vec.Dim }
+func (s *stubVecField) Similarity() string                               { return s.vec.Metric }
+func (s *stubVecField) IndexOptimizedFor() string                        { return s.vec.Opt }
 
 func textField(f *spec.FieldSpec) *stubField {
 	opts := index.IndexField
